@@ -333,8 +333,16 @@ func (e *env) tick(mask int, rtts []int64) {
 			v.VerifSetRTT(time.Duration(rtts[i]))
 		}
 	}
+	bestBefore := e.p.VerifBestID()
+	from := e.progress()
+	served := e.listening()
 	if !guarded(func() { e.p.VerifUpdateBest() }) {
 		e.hung = "updateBest"
+		return
+	}
+	// a switch of the best connection offers its head to every listening waiter (pacing hint, see expectEvents)
+	if nb := e.p.VerifBestID(); nb != bestBefore && nb >= 0 && e.vs[nb].VerifHeadSeqno() > 0 {
+		e.expectEvents(from, served)
 	}
 }
 
